@@ -629,9 +629,17 @@ fn panic_text(pl: Box<dyn std::any::Any + Send>) -> String {
     oneline(&format!("panic: {}", m))
 }
 
+static PRE: std::sync::Mutex<Vec<u8>> = std::sync::Mutex::new(Vec::new()); // one-shot prefix of the next ENC's output buffer
+static SKIP: std::sync::atomic::AtomicUsize = std::sync::atomic::AtomicUsize::new(0); // one-shot: input bytes read before the next DEC
+
 fn encode_hex<T: BinaryCodec>(v: &T) -> R<String> {
+    encode_hex_after(v, &[])
+}
+
+fn encode_hex_after<T: BinaryCodec>(v: &T, pre: &[u8]) -> R<String> {
     match catch_unwind(AssertUnwindSafe(|| {
         let mut b = BytesMut::new();
+        b.extend_from_slice(pre);
         v.encode(&mut b);
         b
     })) {
@@ -641,7 +649,8 @@ fn encode_hex<T: BinaryCodec>(v: &T) -> R<String> {
 }
 
 fn enc_out<T: BinaryCodec>(id: &str, v: &T) -> String {
-    match encode_hex(v) {
+    let pre: Vec<u8> = PRE.lock().map(|mut p| std::mem::take(&mut *p)).unwrap_or_default();
+    match encode_hex_after(v, &pre) {
         Ok(h) => format!("ENC {} {}\n", id, h),
         Err(e) => format!("ERR {} error {}\n", id, e),
     }
@@ -650,6 +659,10 @@ fn enc_out<T: BinaryCodec>(id: &str, v: &T) -> String {
 fn dec_out<T: BinaryCodec>(id: &str, data: Vec<u8>, dump: fn(&T, &mut String)) -> String {
     let mut b = Bytes::from(data);
     let n0 = b.len();
+    let skip = SKIP.swap(0, std::sync::atomic::Ordering::SeqCst);
+    if skip > 0 && skip <= b.len() {
+        let _ = b.split_to(skip);
+    }
     let r = catch_unwind(AssertUnwindSafe(|| T::decode(&mut b)));
     match r {
         Err(pl) => format!("ERR {} error {}\n", id, panic_text(pl)),
@@ -696,6 +709,17 @@ fn main() {
         let res = match t[0] {
             "ENC" => do_enc(id, &t),
             "DEC" => do_dec(id, &t),
+            "PRE" => {
+                let d = unhex(t.get(2).copied().unwrap_or("")).unwrap_or_default();
+                if let Ok(mut p) = PRE.lock() {
+                    *p = d;
+                }
+                format!("OK {}\n", id)
+            }
+            "SKIP" => {
+                SKIP.store(t.get(2).and_then(|s| s.parse().ok()).unwrap_or(0), std::sync::atomic::Ordering::SeqCst);
+                format!("OK {}\n", id)
+            }
             "UNREG" | "REG" => {
                 // the application changes the checksum registry between messages
                 if t.len() > 2 {
